@@ -5,7 +5,7 @@ from common import (Check, Machinery, run_tlc, run_drivers_parallel, judge_shard
                     check_coverage, undy)
 
 CLAUSES = {
-    "C01": {"not_multiple_of_step", "out_of_code_range", "outside_minmax", "range_not_reachable_set", "code_lost_in_float32_ste", "exc", "range_raises",
+    "C01": {"not_multiple_of_step", "out_of_code_range", "outside_minmax", "range_not_reachable_set", "code_lost_in_float32_ste", "exc", "range_raises", "float64_input_differs",
             "nonfinite"},
     "C02": {"not_nearest", "error_above_half_step", "not_idempotent", "not_monotone"},
 }
